@@ -877,6 +877,8 @@ class ClientSession:
                                 parsed_redirect_url = URL(
                                     r_url.replace(" ", "%20"), encoded=True
                                 )
+                                # a blank next to the port is part of it now
+                                parsed_redirect_url.port
                         except (ValueError, IndexError) as e:
                             # yarl raises IndexError for an authority with an
                             # empty host after a bracketed userinfo
